@@ -113,31 +113,54 @@ def synth(spec):
             "meta": {"dense": dense, "kinds": kinds, "waters": len(wat)}}
 
 
+def _shell(base):
+    """bond distance of every side-chain heavy atom from CA (own topology parse)."""
+    res, _, _ = topo.load()
+    d = res[base]
+    dist = {"CA": 0}
+    todo = ["CA"]
+    while todo:
+        cur = todo.pop(0)
+        for b in d.atoms[cur]["bonds"]:
+            if b in d.atoms and b not in dist and not b.startswith("H") and b not in ("N", "C"):
+                dist[b] = dist[cur] + 1
+                todo.append(b)
+    return dist
+
+
 def damage(items, truth, rng, prob, budget_frac=0.06):
-    """Delete side-chain heavy atoms beyond CB in some residues (triggers heavy-atom repair), staying under the
-    code's repair limit (10 % of the template heavy atoms) with a margin for cut termini."""
+    """Truncate some side chains: every heavy atom at bond distance >= k from CA (k >= 2, so CB stays) is deleted
+    together with the hydrogens of the residue's side chain - the realistic 'missing distal atoms' pattern that
+    triggers heavy-atom repair.  Stays under the code's repair limit (10 % of the template heavy atoms)."""
     if prob <= 0:
         return
     res, _, _ = topo.load()
     total = sum(len(res[t["base"]].heavy()) for t in truth if t["kind"] == "aa")
     nchains = len({t["chain"] for t in truth if t["kind"] == "aa"})
     budget = int(budget_frac * total) - nchains
-    keep = []
-    doomed = set()
+    doomed = {}
     for t in truth:
         if t["kind"] == "aa" and t["base"] not in ("GLY", "ALA", "PRO") and rng.random() < prob:
-            doomed.add((t["chain"], t["resi"], t["icode"]))
+            sh = _shell(t["base"])
+            kmax = max(sh.values())
+            if kmax < 2:
+                continue
+            k = rng.randint(2, kmax)
+            gone = [a for a, dd in sh.items() if dd >= k]
+            if 0 < len(gone) <= budget:
+                budget -= len(gone)
+                doomed[(t["chain"], t["resi"], t["icode"])] = set(gone)
+    keep = []
     removed = {}
     for it in items:
-        if isinstance(it, dict) and (it["chain"], it["resi"], it["icode"]) in doomed:
+        if isinstance(it, dict):
             key = (it["chain"], it["resi"], it["icode"])
-            if it["name"] not in ("N", "CA", "C", "O", "CB", "OXT") and not it["name"].startswith("H") and \
-                    budget > 0 and rng.random() < 0.6:
-                removed.setdefault(key, []).append(it["name"])
-                budget -= 1
-                continue
-            if it["name"].startswith("H") and it["name"] not in ("H", "HA") and key in removed:
-                continue  # hydrogens on a damaged side chain would dangle
+            if key in doomed:
+                if it["name"] in doomed[key]:
+                    removed.setdefault(key, []).append(it["name"])
+                    continue
+                if it["name"].startswith("H") and it["name"] not in ("H", "HA", "H2", "H3"):
+                    continue  # side-chain hydrogens of a truncated residue would dangle
         keep.append(it)
     items[:] = keep
     pdbfmt.renumber(items)
